@@ -3,10 +3,12 @@ package main
 import (
 	"fmt"
 	"hash/fnv"
+	"io"
 	"runtime"
 	"strings"
 	"sync"
 	"sync/atomic"
+	"time"
 
 	g "github.com/bobertlo/gmars"
 
@@ -123,6 +125,31 @@ func (j *job) run() (res string) {
 	}
 }
 
+// pausingReader delivers text[:at], sleeps, then delivers the rest.
+type pausingReader struct {
+	text   string
+	at     int
+	pause  time.Duration
+	pos    int
+	paused bool
+}
+
+func (p *pausingReader) Read(b []byte) (int, error) {
+	if p.pos >= len(p.text) {
+		return 0, io.EOF
+	}
+	end := len(p.text)
+	if p.pos < p.at {
+		end = p.at
+	} else if !p.paused {
+		p.paused = true
+		time.Sleep(p.pause)
+	}
+	n := copy(b, p.text[p.pos:end])
+	p.pos += n
+	return n, nil
+}
+
 func copyWD(w *g.WarriorData) g.WarriorData {
 	c := *w
 	c.Code = append([]g.Instruction(nil), w.Code...)
@@ -159,6 +186,38 @@ func runC14(c *Ctx) {
 	}
 	tg := newTextGen()
 	var maxInflight atomic.Int64
+	// one job that is slow for reasons of its own: its input arrives in two halves with a long pause in between,
+	// while all the other work of this shard goes on.  Its result must be the result of the same text read at once.
+	var stalled chan string
+	const stalledText = "x equ 2\nstart mov 0, 1\ni for x\nadd #i, start\nrof\njmp start\nend start\n"
+	stalledCfg := g.SimulatorConfig{Mode: g.ICWS94, CoreSize: 8000, Processes: 8000, Cycles: 80000, ReadLimit: 8000, WriteLimit: 8000, Length: 100, Distance: 100}
+	if c.Shard == 0 && c.Only < 0 {
+		pause := 11 * time.Second
+		if c.Thorough() {
+			pause = 31 * time.Second
+		}
+		stalled = make(chan string, 1)
+		go func() {
+			defer func() {
+				if r := recover(); r != nil {
+					stalled <- fmt.Sprintf("PANIC: %v", r)
+				}
+			}()
+			wd, err := g.CompileWarrior(&pausingReader{text: stalledText, at: len(stalledText) / 2, pause: pause}, stalledCfg)
+			stalled <- sumWarrior(wd, err)
+		}()
+	}
+	defer func() {
+		if stalled == nil {
+			return
+		}
+		got := <-stalled
+		wd, err := g.CompileWarrior(strings.NewReader(stalledText), stalledCfg)
+		if want := sumWarrior(wd, err); got != want {
+			c.Violate("C14:result-differs:slow-input", fmt.Sprintf("a text whose second half arrived after a long pause assembled to %q; read at once it assembles to %q", got, want), map[string]interface{}{"text": stalledText})
+		}
+		c.Inc("slow_input_jobs_compared")
+	}()
 	c.Cases(rounds, func(idx int64, r *Rng) {
 		// ---------------- aliasing monitor (sequential) ----------------
 		{
